@@ -78,7 +78,7 @@ def fitsSeq (semi : SemI) : Synopsis → List Str → Bool
   | [], [] => true
   | [], _ :: _ => false
   | r :: rs, [] => r.optional && fitsSeq semi rs []
-  | r :: rs, a :: as => (if a.isEmpty then true else roleFits semi r a) && fitsSeq semi rs as
+  | r :: rs, a :: as => (if a.isEmpty then r.optional else roleFits semi r a) && fitsSeq semi rs as
 
 /-- `Synopsis.subsumes(args)` for a mapping role ↦ None (the encoder's use): every role of the
 EP is a role of the synopsis. -/
